@@ -362,6 +362,15 @@ def r5(ck, F):
         if not ck.anchor("C05.R5", label, b):
             continue
         gd = [(bb, t) for bb, t in b.calls() if t["callee"].get("path") == "tracing_core::dispatch::get_default"]
+        # a release that calls the registry's own try_close closes the span behind the layers' backs: no on_close, no
+        # CloseGuard, so the slot is never cleared
+        direct = [(bb, t) for x in [b] + F.closures_of(b) for bb, t in x.calls() if t["callee"].get("method") == "try_close"
+                  and (t["callee"].get("resolved") or t["callee"].get("path") or "").startswith(COLLECT_REG)]
+        if direct:
+            ck.bad("C05.R5", "%s releases through the whole stack" % label, where(direct[0][1]["sp"]),
+                   "the reference is released by calling Registry::try_close directly: when it is the last one the span is closed without any layer's "
+                   "on_close and without a CloseGuard (the slot is never cleared, the parent never released)", fn=fn)
+            continue
         if gd:
             ck.bad("C05.R5", "%s->get_default" % label, where(gd[0][1]["sp"]),
                    "the reference the registry took for itself is released through dispatch::get_default (the thread's *current* default), not through the stack that owns the span", fn=fn)
